@@ -410,7 +410,7 @@ Lemma OoP_make_job : forall now pend st tm, Sp (tm :: pend) st -> OoP now (tm ::
 Proof.
   intros now pend st tm H [A B C D E F G].
   destruct (make_job_seq now pend st tm H) as [Eh [Ec [p0 [Hp0 Es]]]].
-  destruct (F tm (or_introl eq_refl)) as [[T1 [T2 T3]] [Lt Lu]].
+  destruct (F tm (or_introl eq_refl)) as [[T1 [T2 [T3 _]]] [Lt Lu]].
   assert (X : t_add tm + t_dur tm = t_exp tm).
   { destruct (expire_of_fixed _ _ T2 T3) as [Q _]. rewrite T1, Q. unfold u64 in *. lia. }
   assert (Cases : forall p x, vp p -> In x (seq_p (make_job_from_tmo now st tm) p) -> In x (seq_p st p) \/ (p = p0 /\ x = t_exp tm)).
@@ -668,4 +668,55 @@ Proof.
   pose proof (o_sorted _ HO p Hp) as X. unfold seq_p in X.
   eapply subl_sorted; [|exact X]. rewrite <- (app_nil_r (ev_exps p _)) at 1. apply subl_app; [apply subl_refl|].
   clear. induction (qexps _ _); constructor; assumption.
+Qed.
+
+(* ---------------------------------------------------------------- the queries, end to end *)
+(* in every state of every history of the repaired loop, for every handle value:
+   is_running is 1 exactly when the handle resolves to a slot whose timer is still in the heap (ACTIVE);
+   then expire_time_get is that timer's expiry = min (add + duration, 2^64 - 1) > 0 and the time remaining is
+   max 0 (expiry - clock); otherwise (stale or never-issued handle, timer deleted, expired and queued, dispatched)
+   all three queries answer 0.  In particular time remaining > 0 implies running. *)
+Theorem queries_all_histories : forall beh ops hz0 clk0 cstep0 h,
+  0 < hz0 -> 0 < clk0 <= LT_UINT64_MAX -> wf2_beh beh -> Forall wf2_op ops ->
+  let st := run fixed beh (lp_init hz0 clk0 cstep0) ops in
+  (is_running fixed st h = 1 \/ is_running fixed st h = 0) /\
+  (is_running fixed st h = 1 <->
+     exists i s, timer_from_handle fixed st h = LOk i s /\ s_state s = LT_ENTRY_ACTIVE) /\
+  (is_running fixed st h = 1 ->
+     exists tm, mem (ents (heap st)) tm /\ t_exp tm = Z.min (t_add tm + t_dur tm) LT_UINT64_MAX /\ 0 < t_exp tm /\
+                expire_time_get fixed st h = t_exp tm /\
+                fst (time_remaining fixed st h) = Z.max 0 (t_exp tm - clk st)) /\
+  (is_running fixed st h = 0 -> expire_time_get fixed st h = 0 /\ fst (time_remaining fixed st h) = 0) /\
+  (fst (time_remaining fixed st h) > 0 -> is_running fixed st h = 1).
+Proof.
+  intros beh ops hz0 clk0 cstep0 h Hz Hc Hb Ho st.
+  destruct (Inv_run beh ops _ (Inv_init hz0 clk0 cstep0 Hz Hc) Hb Ho) as [H [HW _]]. fold st in H, HW.
+  destruct (queries_agree fixed st h) as [Q1 [Q2 [Q3 [Q4 Q5]]]].
+  assert (Act : forall i s, timer_from_handle fixed st h = LOk i s -> s_state s = LT_ENTRY_ACTIVE ->
+            exists tm, s_th s = Some tm /\ mem (ents (heap st)) tm /\ t_exp tm = Z.min (t_add tm + t_dur tm) LT_UINT64_MAX /\ 0 < t_exp tm).
+  { intros i s L A. destruct (lookup_fixed _ _ _ _ L) as [N _].
+    destruct (s_th s) as [tm|] eqn:T; [|exfalso; exact (s_act _ _ H i s N A T)].
+    destruct (s_thm _ _ H i s tm N T) as [_ [[M|[]] _]]. exists tm. split; [reflexivity|]. split; [assumption|].
+    destruct (w_heap _ HW tm (proj1 (mem_In _ _) M)) as [T1 [T2 [T3 T4]]].
+    destruct (expire_of_fixed _ _ T2 T3) as [X _]. rewrite T1, X. split; [reflexivity|]. unfold u64, LT_UINT64_MAX in *. lia. }
+  assert (Dec : is_running fixed st h = 1 \/ is_running fixed st h = 0) by (unfold is_running; destruct (_ >? 0); auto).
+  destruct (timer_from_handle fixed st h) as [e|i s] eqn:L.
+  - destruct (Q5 e eq_refl) as [X1 [X2 X3]]. split; [assumption|]. split; [|split; [|split]].
+    + split; [rewrite X2; discriminate|intros [i [s [Y _]]]; discriminate].
+    + rewrite X2. discriminate.
+    + intros _. split; assumption.
+    + rewrite X3. lia.
+  - destruct (Z.eq_dec (s_state s) LT_ENTRY_ACTIVE) as [A|A].
+    + destruct (Act i s eq_refl A) as [tm [T [M [E P]]]].
+      destruct (Q4 i s tm eq_refl A T P) as [X1 [X2 X3]].
+      split; [assumption|]. split; [|split; [|split]].
+      * split; [intros _; exists i, s; split; [reflexivity|assumption]|intros _; assumption].
+      * intros _. exists tm. repeat split; assumption.
+      * rewrite X2. discriminate.
+      * intros _. assumption.
+    + destruct (Q3 i s eq_refl A) as [X1 [X2 X3]]. split; [assumption|]. split; [|split; [|split]].
+      * split; [rewrite X2; discriminate|intros [i' [s' [Y Y']]]; inversion Y; subst; contradiction].
+      * rewrite X2. discriminate.
+      * intros _. split; assumption.
+      * rewrite X3. lia.
 Qed.
